@@ -559,7 +559,11 @@ func (g *Gen) doReturn(st *State, x *ssa.Return, res []Val) {
 	env2 := g.resultEnv(g.fn, g.c, res, g.env)
 	k := g.ord("ret")
 	for i, e := range g.c.Ensures {
+		n := len(g.obls)
 		g.oblige(st, "post", fmt.Sprintf("ensures[%s]@ret%d", clauseName(e, i), k), g.line(x.Pos()), g.spec(st, e.Expr, env2))
+		if len(g.obls) > n {
+			g.obls[n].Props = e.Props
+		}
 	}
 }
 
